@@ -21,6 +21,9 @@ package metajournal
 // is the only damage the chunk reader cannot see (a file that ends after a whole chunk is a
 // well-formed shorter file, ReadNext reports no error); only the header's "last event version"
 // tells the loader that events are missing.
+// Plus "save again unchanged" of every metric, group and the namespace (byte-identical content, only version
+// and update time move), explored in a family of its own (see TestVerifC20); the reference model carries the
+// update time for the entity kinds whose compact form keeps it (groups, namespaces).
 //
 // Oracle (c20Judge), evaluated for EVERY reached state on the instance that reached it, after all
 // pending deliveries were drained (source -> compact -> agent):
@@ -715,6 +718,9 @@ func (w *c20World) apply(op c20Op) (conflict bool) {
 //     that metric, and compactJournalEvent removes both before anything downstream of the source
 //     sees them (the agent copies the compact journal). What a replica holds is in the key with all
 //     fields, so if compaction ever let the description through, the states would differ there.
+//   - The "late" toggle (update time +2 after an unchanged re-save) of a group / the namespace is in the key (source
+//     model line, journal entries, MetricsStorage groups and namespaces with their UpdateTime); of a metric it is
+//     left out for the same reason as "invisible": compaction clears a metric's update time.
 //   - Map-iteration-order nondeterminism of the code under test. ApplyEvent rebuilds
 //     metricsByName from metricsByID and groupsOrdered from groupsByID by ranging over maps. When
 //     a replica transiently knows two metrics (groups) under one name (one of them stale: its
